@@ -8,6 +8,8 @@ sweep families, CPU-time watchdog for work inside the re engine, C12 sentinels r
 import os
 import xml.dom
 
+import time
+
 from engine import core, steps
 
 PROPERTY = 'C01'
@@ -86,8 +88,9 @@ class Monitor:
 
         name = css21_detect.detect_final(b)[0]
         try:
-            codecs.lookup(name)
-            return '\x00' not in name
+            info = codecs.lookup(name)
+            # codecs that are no text encodings (rot13, zlib, ...) name no encoding a sheet can be in either
+            return '\x00' not in name and getattr(info, '_is_text_encoding', True) and info.name not in ('css', 'undefined', 'idna', 'punycode')
         except (LookupError, ValueError):
             return False
 
@@ -105,6 +108,7 @@ class Monitor:
         total = 0
         try:
             with core.cpu_limit(cpu), core.LogCapture(c) as log:
+                cpu0 = time.process_time()
                 self.meter.start(budget)
                 try:
                     if entry == 'parseStyle':
@@ -127,6 +131,11 @@ class Monitor:
                     stage = 'serialise'
                     out1 = obj.cssText
                     total += self.meter.stop()
+                    cpu_used = time.process_time() - cpu0
+                    ctx.count('oracle.cpu-rule')
+                    if cpu_used > 2.0 + n / 1000.0:
+                        # CPU time of this process, not wall clock: independent of machine load; legitimate inputs stay below 15 % of it
+                        ctx.violation('cpu-bound', case, {'cpu_s': round(cpu_used, 2), 'allowed_s': round(2.0 + n / 1000.0, 2), 'n': n, 'steps': total}, features=features)
                     if steps_out is not None:
                         steps_out.append(total)
                     if check_steps and total > bound(n):
@@ -326,6 +335,30 @@ FAMILIES = {
     'len.attr': (lambda k: 'a' + '[b=c]' * (k * 3) + '{x:1}', 100),
     'len.variables': (lambda k: '@variables{' + ''.join('v%d:1;' % i for i in range(k * 3)) + '}', 60),
     'len.not-list': (lambda k: 'a' + ':not(.b)' * (k * 2) + '{x:1}', 100),
+    # regular-expression and conversion hazards (time spent inside re/int/float is invisible to the step meter: the CPU rule judges it)
+    'len.comment-stars-open': (lambda k: 'a{x:y} /*' + '*' * k + ' x', 100),
+    'len.comment-stars-open-decl': (lambda k: 'a{b:c /*' + '*' * k + ' x}', 100),
+    'len.comment-stars-closed': (lambda k: '/*' + '*' * k + '/a{x:y}', 100),
+    'len.stars': (lambda k: '*' * (k * 10) + '{x:y}', 100),
+    'len.slash-stars': (lambda k: '/*/' * k + 'a{x:y}', 100),
+    'nest.var-fallback': (lambda k: 'a{b:' + 'var(x,' * k + '1' + ')' * k + '}', 60),
+    'nest.var-fallback-open': (lambda k: 'a{b:' + 'var(x,' * k, 60),
+    'len.digits': (lambda k: 'a{x:' + '9' * (k * 100) + ';y:1}', 60),
+    'len.digits-fraction': (lambda k: 'a{x:' + '9' * (k * 10) + '.5;y:1}', 60),
+    'len.digits-dimension': (lambda k: 'a{x:' + '9' * (k * 10) + '.5px 1' + '0' * (k * 10) + 'em}', 60),
+    'len.fraction-digits': (lambda k: 'a{x:0.' + '0' * (k * 10) + '1}', 60),
+    'len.exponent': (lambda k: 'a{x:1e' + '9' * k + '}', 60),
+    'len.backslashes': (lambda k: 'a{x:' + '\\\\' * k + '}', 100),
+    'len.backslash-newlines': (lambda k: 'a{x:"' + '\\\n' * k + '"}', 100),
+    'len.dashes': (lambda k: 'a{x:' + '-' * (k * 5) + 'b}', 100),
+    'len.hash': (lambda k: 'a{x:#' + 'a' * (k * 10) + '}', 100),
+    'len.unicode-range': (lambda k: 'a{x:U+' + '?' * k + '}', 100),
+    'len.important': (lambda k: 'a{x:1 !' + ' ' * k + 'important}', 100),
+    'len.cdo': (lambda k: '<!--' * k + 'a{x:y}' + '-->' * k, 100),
+    'len.at-sign': (lambda k: '@' * (k * 5) + 'a{x:y}', 100),
+    'len.quote-runs': (lambda k: 'a{x:' + '"\'' * k + '}', 100),
+    'len.url-open': (lambda k: 'a{x:url(' + 'a ' * k, 100),
+    'len.attr-ops': (lambda k: 'a[b' + '~=' * k + 'c]{x:y}', 100),
 }
 FAMILY_FEATURES = {
     'len.nonascii-font': ['validation-regex.nonascii-run'],
@@ -367,6 +400,24 @@ def stream_sweeps(ctx, mon):
                 if s > max(s0, 2000) * r**3 * 4:
                     ctx.violation('growth', {'kind': 'sweep', 'family': name, 'k': k}, {'series': series, 'k0': k0, 'at': k}, features=feats + ['sweep.' + name])
                     break
+
+
+def stream_charset_names(ctx, mon):
+    """every codec name Python knows (text encodings or not) in an @charset rule of a text and of a byte document"""
+    import encodings.aliases
+
+    names = sorted(set(encodings.aliases.aliases.values()) | {'rot13', 'rot_13', 'base64', 'hex', 'zlib', 'bz2', 'uu', 'quopri', 'idna', 'punycode', 'undefined', 'unicode_escape',
+                                                              'raw_unicode_escape', 'utf-7', 'utf-8-sig', 'no-such-codec-zz', 'css', 'mbcs', 'oem'})  # fmt: skip
+    for i, name in ctx.share(names):
+        ctx.count('charset-names.cases')
+        feats = ['charset-name']
+        try:
+            if 'a{'.encode(name) != b'a{':
+                feats.append('charset.not-ascii-compatible')
+        except Exception:
+            feats.append('charset.unusable')
+        mon.run('@charset "%s";a{content:"\xe9\u20ac";x:y}' % name, stream='n', features=feats)
+        mon.run(('@charset "%s";a{x:y}' % name).encode('ascii'), stream='n', features=['charset-name'])
 
 
 def stream_bytes(ctx, mon, count):
@@ -451,6 +502,7 @@ def run_worker(ctx):
     mon = Monitor(ctx, cssutils)
     quick = ctx.tier == 'quick'
     stream_sweeps(ctx, mon)
+    stream_charset_names(ctx, mon)
     stream_product(ctx, mon, 0.12 if quick else 1.0)
     stream_product2(ctx, mon, 6000 if quick else 300000)
     stream_style(ctx, mon, 0.3 if quick else 0)
